@@ -6,7 +6,7 @@
    Node.update_state (Source, Sink, Splitter, Combiner) the totals add up to the time elapsed
    since the first update.  Exact (integer / rational) arithmetic; float rounding is outside. *)
 From Coq Require Import List ZArith Bool Arith.
-From FV Require Import SrcFragments Accounting.
+From FV Require Import SrcFragments Accounting TieAcc.
 Import ListNotations.
 Open Scope Z_scope.
 
